@@ -2,6 +2,8 @@ package main
 
 import (
 	"fmt"
+	"os"
+	"path/filepath"
 	"go/constant"
 	"go/token"
 	"go/types"
@@ -74,6 +76,7 @@ type Verifier struct {
 	checkedNil  map[string]bool
 	assumeCount int
 	trustedUsed map[string]bool
+	pruneN      int
 	measure0    string // termination measure at entry (functions with a decreases clause)
 }
 
@@ -313,6 +316,13 @@ func splitGoal(goal string) []string {
 				walk(stripBang(f.list[2]), append(append([]frame(nil), ctx...), frame{binder: f.list[1].String()}))
 				return
 			}
+		case "ite":
+			if len(f.list) == 4 {
+				c := f.list[1].String()
+				walk(f.list[2], append(append([]frame(nil), ctx...), frame{guard: c}))
+				walk(f.list[3], append(append([]frame(nil), ctx...), frame{guard: "(not " + c + ")"}))
+				return
+			}
 		}
 		g := f.String()
 		for i := len(ctx) - 1; i >= 0; i-- {
@@ -325,7 +335,7 @@ func splitGoal(goal string) []string {
 		out = append(out, g)
 	}
 	walk(t, nil)
-	if len(out) == 0 || len(out) > 24 {
+	if len(out) == 0 || len(out) > 40 {
 		return []string{goal}
 	}
 	return out
@@ -463,6 +473,22 @@ func (v *Verifier) localVars(st *State, b *ssa.BasicBlock, vars map[string]Value
 	}
 }
 
+// localVarsAll is localVars without the parameter filter: a reassigned parameter is available as "name$".
+func (v *Verifier) localVarsAll(st *State, b *ssa.BasicBlock, vars map[string]Value) {
+	tmp := map[string]Value{}
+	saved := v.params
+	v.params = map[string]Value{}
+	v.localVars(st, b, tmp)
+	v.params = saved
+	for n, val := range tmp {
+		if _, isParam := v.params[n]; isParam {
+			vars[n+"$"] = val
+		} else {
+			vars[n] = val
+		}
+	}
+}
+
 // ---------- entry ----------
 
 type FuncResult struct {
@@ -499,6 +525,21 @@ func (v *Verifier) run() (res *FuncResult) {
 		v.unsupportedf("function has no body")
 	}
 	v.analyse()
+	v.env.ownedMaps = map[string]bool{}
+	for k := range v.prog.owned {
+		parts := strings.Split(k, ".")
+		if tp := v.prog.typPkgs[parts[0]]; tp != nil {
+			if tn, ok := tp.Scope().Lookup(parts[1]).(*types.TypeName); ok {
+				v.env.ownedMaps[fieldMapName(tn.Type(), parts[2])] = true
+			}
+		}
+	}
+	v.env.revealed = map[string]bool{}
+	if v.contract != nil {
+		for _, r := range v.contract.Reveal {
+			v.env.revealed[r] = true
+		}
+	}
 	st := &State{heap: map[string]string{}, hsort: map[string]string{}, regs: map[ssa.Value]Value{}, measure: map[int]string{}, inLoop: map[int]bool{}}
 	st.alloc = v.env.ctx.declConst("alloc!0", "Int")
 	st.assume("(>= alloc!0 0)")
@@ -709,6 +750,19 @@ func (v *Verifier) execBlock(b *ssa.BasicBlock, pred *ssa.BasicBlock, st *State)
 			s2 := st.clone()
 			st.assume(c.T)
 			s2.assume(not(c.T))
+			if v.contract != nil && v.contract.Prune {
+				if v.infeasible(st) {
+					v.notes = append(v.notes, "branch at "+v.posOf(x)+" (true side) proved infeasible and skipped")
+				} else {
+					v.execBlock(b.Succs[0], b, st)
+				}
+				if v.infeasible(s2) {
+					v.notes = append(v.notes, "branch at "+v.posOf(x)+" (false side) proved infeasible and skipped")
+				} else {
+					v.execBlock(b.Succs[1], b, s2)
+				}
+				return
+			}
 			v.execBlock(b.Succs[0], b, st)
 			v.execBlock(b.Succs[1], b, s2)
 			return
@@ -735,6 +789,18 @@ func (v *Verifier) execBlock(b *ssa.BasicBlock, pred *ssa.BasicBlock, st *State)
 			v.unsupportedf("too many paths (> %d)", v.maxPaths)
 		}
 	}
+}
+
+// infeasible: is the path condition contradictory (decided by the solvers with a short limit)?
+func (v *Verifier) infeasible(st *State) bool {
+	dir := filepath.Join(verifDir, ".work", "prune")
+	os.MkdirAll(dir, 0o755)
+	v.pruneN++
+	file := filepath.Join(dir, fmt.Sprintf("%s_%d.smt2", safeName(v.key), v.pruneN))
+	text := v.env.ctx.render(st.pc, "false", false, st.cands)
+	os.WriteFile(file, []byte(text), 0o644)
+	r := solve(file, 3)
+	return r.Status == "unsat"
 }
 
 // nameReg replaces a large register term by a fresh constant defined equal to it.
@@ -1188,6 +1254,11 @@ func (v *Verifier) execInstr(st *State, in ssa.Instruction) {
 		if p.Addr == nil {
 			v.checkNonNil(st, x, p)
 		}
+		if p.Addr != nil && p.Addr.Kind == "field" && v.env.ownedMaps[p.Addr.Map] {
+			if !v.ownedStoreOK(x) {
+				v.emit(st, "own", v.siteLabel(x), "false", nil, "store to an owned slice field of a value that is not derived from the same field (append/reslice), make or nil", x)
+			}
+		}
 		v.storeAddr(st, p, val, x)
 	case *ssa.Call:
 		st.regs[x] = v.doCall(st, x, x.Common())
@@ -1216,6 +1287,9 @@ func (v *Verifier) execInstr(st *State, in ssa.Instruction) {
 			v.unsupportedf("extract from non-tuple")
 		}
 		st.regs[x] = t.Tuple[x.Index]
+		if b, ok := x.Type().Underlying().(*types.Basic); ok && b.Kind() == types.Int {
+			st.addCand(t.Tuple[x.Index].T)
+		}
 	case *ssa.MakeInterface:
 		val := v.operand(st, x.X)
 		if val.Addr != nil {
@@ -1274,6 +1348,39 @@ func (v *Verifier) execInstr(st *State, in ssa.Instruction) {
 	default:
 		v.unsupportedf("instruction %T at %s", in, v.posOf(in))
 	}
+}
+
+// ownedStoreOK: the stored slice is nil, a fresh make, or an append/reslice of the same field of the
+// same object (syntactic check on the SSA definition chain).
+func (v *Verifier) ownedStoreOK(x *ssa.Store) bool {
+	fa, ok := x.Addr.(*ssa.FieldAddr)
+	if !ok {
+		return false
+	}
+	var derives func(val ssa.Value, depth int) bool
+	derives = func(val ssa.Value, depth int) bool {
+		if depth > 6 {
+			return false
+		}
+		switch d := val.(type) {
+		case *ssa.Const:
+			return d.Value == nil
+		case *ssa.MakeSlice:
+			return true
+		case *ssa.Slice:
+			return derives(d.X, depth+1)
+		case *ssa.UnOp:
+			if fa2, ok := d.X.(*ssa.FieldAddr); ok && d.Op == token.MUL {
+				return fa2.Field == fa.Field && fa2.X == fa.X
+			}
+		case *ssa.Call:
+			if b, ok := d.Call.Value.(*ssa.Builtin); ok && b.Name() == "append" {
+				return derives(d.Call.Args[0], depth+1)
+			}
+		}
+		return false
+	}
+	return derives(x.Val, 0)
 }
 
 func (v *Verifier) doAlloc(st *State, x *ssa.Alloc) Value {
@@ -1736,10 +1843,23 @@ func (v *Verifier) doReturn(st *State, x *ssa.Return) {
 	vars := v.baseVars(st)
 	v.resultVars(st, results, vars)
 	se := v.specEnv(st, vars)
+	// locals at the return point (by source name; "name$" = current value of a reassigned parameter)
+	locals := map[string]Value{}
+	v.localVarsAll(st, x.Block(), locals)
 	for _, en := range v.contract.Ensures {
+		se.witness = nil
+		if len(en.Witness) > 0 {
+			se.witness = map[string]Value{}
+			for qv, local := range en.Witness {
+				if lv, ok := locals[local]; ok {
+					se.witness[qv] = lv
+				}
+			}
+		}
 		o := v.emit(st, "post", en.Label, se.evalBool(en.E), en.Props, en.Text, x)
 		v.addInputs(o, st)
 	}
+	se.witness = nil
 	v.checkFrame(st, x)
 }
 
